@@ -71,6 +71,27 @@ Theorem C10_unbounded_never_refuses : forall c evs s,
 Proof. exact unbounded_never_refuses. Qed.
 Print Assumptions C10_unbounded_never_refuses.
 
+(* an attempt outside the window is forgotten: in every reachable state of the back-off (nothing refused so far,
+   the decrement timers that are due have fired), fewer than MaxRetries attempts still inside their window
+   means the next attempt is accepted, however many attempts the pipeline made in its life *)
+Theorem C10_attempt_outside_window_is_forgotten : forall c evs s d s' o,
+  bcfg_ok c -> brun c binit evs = Some s ->
+  b_refused s = 0 -> timers_fired c s -> pending c s < b_maxretries c ->
+  bstep c s (Attempt d) = Some (s', o) -> exists n, o = OAccepted n d.
+Proof.
+  intros c evs s d s' o Hc Hr. apply attempt_outside_window_is_forgotten.
+  exact (binv_run c evs Hc binit s (binv_init c) Hr).
+Qed.
+Print Assumptions C10_attempt_outside_window_is_forgotten.
+
+(* the variant in which a restart COPIES the counter instead of sharing it never forgets *)
+Example C10_by_value_counter_refuses_isolated_failure :
+  let c := mkBcfg 1 5 2 1 20 in
+  let evs := [Attempt 1; Tick 1; Wake 0; Tick 100; Dec 0; Attempt 1] in
+  (match brun_with bstep c binit evs with Some (_, os) => last os OTick | None => OTick end = OAccepted 1 1)
+  /\ (match brun_with bstep_byvalue c binit evs with Some (_, os) => last os OTick | None => OTick end = ORefused 2).
+Proof. exact by_value_counter_refuses_isolated_failure. Qed.
+
 (* ---------------- user_stop_never_restarted ---------------- *)
 
 (* v2: a run marked as intentionally stopped never reaches the recover arm, whatever surfaced *)
